@@ -32,7 +32,7 @@ COMPONENTS = {"real": ["amaranth.build.res.ResourceManager", "amaranth.build.dsl
                        "amaranth.lib.io.Buffer", "amaranth.back.rtlil"],
               "stub": ["pin-owner model", "constraint-file parsers", "no toolchain is executed (do_build=False)"]}
 EXPECTED_PROBES = ("refuse", "refuse_conflict_late", "refuse_duplicate", "refuse_unknown", "refuse_bad_dir", "refuse_bad_xdr",
-                   "refuse_bad_xdr_late", "granted", "connector_chain", "diffpairs", "clock_constraints", "net_clock_constraints", "net_clock_crossing_modules",
+                   "refuse_bad_xdr_late", "granted", "connector_chain", "diffpairs", "clock_constraints", "net_clock_constraints", "net_clock_crossing_modules", "cancelled_attribute",
                    "resources_shared_with_other_revision", "built",
                    "legal_after_refusal")
 
@@ -44,12 +44,19 @@ def _gen_ios(cfg, pool, conns, depth, p_clock):
     r = cfg.random()
     if depth < 2 and r < 0.3:
         n = cfg.randint(1, 3)
-        return {"subs": [dict(_gen_ios(cfg, pool, conns, depth + 1, p_clock), name="s%d" % i) for i in range(n)]}
+        grp = {"subs": [dict(_gen_ios(cfg, pool, conns, depth + 1, p_clock), name="s%d" % i) for i in range(n)]}
+        if cfg.random() < 0.3:
+            # attributes given at group level are inherited by the members, which may override or cancel (None) them
+            grp["attrs"] = {"PULL": cfg.choice(["DOWN", None]), "IO_STANDARD": "LV3"}
+        return grp
     width = cfg.choice([1, 1, 2, 3, 4])
     d = cfg.choice(["i", "o", "io", "oe"])
     node = {"dir": d, "invert": cfg.random() < 0.3, "conn": None, "clock_mhz": None, "attrs": {}}
     if cfg.random() < 0.3:
         node["attrs"] = {"IO_STANDARD": cfg.choice(["LV1", "LV2"])}
+        if cfg.random() < 0.5:
+            node["attrs"] = dict(PULL=cfg.choice(["UP", None, None]), **node["attrs"]) if cfg.random() < 0.5 else \
+                dict(node["attrs"], PULL=cfg.choice(["UP", None, None]))
     use_conn = conns and cfg.random() < 0.35
     if use_conn:
         c = cfg.choice(conns)
@@ -161,6 +168,8 @@ def make_platform(config, shared_res=None, res_out=None):
         if "subs" in node:
             for s in node["subs"]:
                 args.append(Subsignal(s["name"], *mk(s, False)))
+            if node.get("attrs"):
+                args.append(Attrs(**node["attrs"]))
             return args
         conn = tuple(node["conn"]) if node["conn"] else None
         if "diff" in node:
@@ -255,6 +264,24 @@ def leaves(config, res):
             out.append((path, node, p, None, h))
     walk(res, ("%s_%d" % (res["name"], res["number"]),))
     return out
+
+
+def _attr_chain(res_desc, path):
+    """attribute dicts from the resource down to the leaf at `path` (path[0] is the resource's own name)"""
+    node, chain = res_desc, [res_desc.get("attrs") or {}]
+    for nm in path[1:]:
+        node = next(s for s in node["subs"] if s["name"] == nm)
+        chain.append(node.get("attrs") or {})
+    return chain
+
+
+def expected_attrs(res_desc, path):
+    """members inherit, override or cancel (None) the attributes given further up"""
+    cur = {}
+    for a in _attr_chain(res_desc, path):
+        cur.update(a)
+        cur = {k: v for k, v in cur.items() if v is not None}
+    return cur
 
 
 def legal_dir(node_dir, req):
@@ -438,7 +465,14 @@ def run_history(config, ops, use_frac, use_seed, stats=None, record=None, net_cl
                     raise Violation("port_invert", -1, {"path": list(path), "invert": list(o.invert),
                                                         "declared": node["invert"]})
                 ports = [("p", o.p), ("n", o.n)] if n is not None else [("io", o.io)]
+                res_desc = next(r_ for r_ in config["resources"] if r_["name"] == op["name"] and r_["number"] == op["number"])
+                want_attrs = expected_attrs(res_desc, path)
                 for suffix, iop in ports:
+                    for mm in iop.metadata:
+                        if dict(mm.attrs) != want_attrs:
+                            raise Violation("port_attributes", -1, {"path": list(path), "attrs": dict(mm.attrs), "declared": want_attrs})
+                    if any(v is None for a in _attr_chain(res_desc, path) for v in a.values()) and stats is not None:
+                        stats["probes"]["cancelled_attribute"] = stats["probes"].get("cancelled_attribute", 0) + 1
                     meta = [mm.name for mm in iop.metadata]
                     decl = p if suffix in ("io", "p") else n
                     if meta != decl:
